@@ -13,7 +13,7 @@ not claimed here.
 namespace Badger
 
 /-- Normal mode: a successful commit returns `nextTxnTs` and increments it (`newCommitTs`). -/
-theorem C03_commit_ts_fresh (d : Db) (id mts ts : Nat) (hm : d.opts.managed = false)
+theorem C03_commit_ts_fresh_db (d : Db) (id mts ts : Nat) (hm : d.opts.managed = false)
     (h : (d.commit id mts).2 = .ok ts) :
     ts = d.nextTs ∧ (d.commit id mts).1.nextTs = d.nextTs + 1 := by
   obtain ⟨t, hf, hg, hts⟩ := commit_ok_inv h
@@ -33,10 +33,10 @@ theorem C03_commit_ts_strictly_increasing (d : Db) (id1 m1 ts1 : Nat) (ops : Lis
     (id2 m2 ts2 : Nat) (hm : d.opts.managed = false)
     (h1 : (d.commit id1 m1).2 = .ok ts1)
     (h2 : (((d.commit id1 m1).1.run ops).commit id2 m2).2 = .ok ts2) : ts1 < ts2 := by
-  obtain ⟨e1, e2⟩ := C03_commit_ts_fresh d id1 m1 ts1 hm h1
+  obtain ⟨e1, e2⟩ := C03_commit_ts_fresh_db d id1 m1 ts1 hm h1
   have hm' : ((d.commit id1 m1).1.run ops).opts.managed = false := by
     rw [(run_opts _ ops).1, commit_opts]; exact hm
-  obtain ⟨e3, -⟩ := C03_commit_ts_fresh _ id2 m2 ts2 hm' h2
+  obtain ⟨e3, -⟩ := C03_commit_ts_fresh_db _ id2 m2 ts2 hm' h2
   have := run_nextTs_ge (d.commit id1 m1).1 ops
   omega
 
@@ -65,13 +65,13 @@ theorem C03_commit_atomic (d : Db) (id mts cts : Nat) (t : TxnM)
   refine ⟨?_, rfl, rfl, ?_⟩
   · intro e he
     have hin : finEnt d (keepTogetherOf t) cts e ∈ commitEntries d t cts :=
-      List.mem_map_of_mem he
+      mem_commitEntries.mpr ⟨e, he, rfl⟩
     obtain ⟨x, hx, h1, h2⟩ := slot_foldl_memPut (m := d.lsm.mem) (.inl hin)
     exact ⟨x, hx, by rw [h1, finEnt_key], by rw [h2, finEnt_ver]⟩
   · intro ts hts k
     have hnew : ∀ x ∈ commitEntries d t cts, ts < x.ver := by
       intro x hx
-      obtain ⟨e, he, rfl⟩ := List.mem_map.mp hx
+      obtain ⟨e, he, rfl⟩ := mem_commitEntries.mp hx
       rw [finEnt_ver]; exact hts e he
     constructor
     · apply newestLE_congr_filter
@@ -118,7 +118,7 @@ theorem C03_conflict_no_trace (d : Db) (id mts : Nat) (h : (d.commit id mts).2 =
 
 /-- Likewise for every error answer (discarded transaction, zero commit timestamp in managed
     mode) and for the empty transaction (`noop`). -/
-theorem C03_rejected_no_trace (d : Db) (id mts : Nat)
+theorem C03_rejected_no_trace_db (d : Db) (id mts : Nat)
     (h : (∃ s, (d.commit id mts).2 = .err s) ∨ (d.commit id mts).2 = .noop) :
     (d.commit id mts).1.lsm = d.lsm ∧ (d.commit id mts).1.nextTs = d.nextTs ∧
     (d.commit id mts).1.committed = d.committed := by
